@@ -226,6 +226,14 @@ class Ctx:
         shutil.rmtree(self.scratch, ignore_errors=True)
 
 
+CRASH_RE = re.compile(r"(?m)^(panic: |fatal error: |goroutine \d+ \[|(?!\s*\d* \|)\S.*internal error)")
+
+
+def crashed(stderr):
+    """Crash output of a Go program / driver, as opposed to source excerpts that merely contain such words."""
+    return bool(CRASH_RE.search(stderr or ""))
+
+
 def tail(path, n):
     with open(path, errors="replace") as f:
         return "".join(f.readlines()[-n:])
